@@ -250,9 +250,16 @@ class Enc:
                 memo[j] = y
             elif op == D.ABS:
                 a = memo[n[1]]
-                t = self.as_term(a)
-                s = z3.If(t >= 0, t, -t)
-                memo[j] = Val(ONE, {self.factor(s, ('opaque',)): 1})
+                if all(e >= 0 for e in a.f.values()):
+                    t = self.as_term(a)
+                    s = z3.If(t >= 0, t, -t)
+                    memo[j] = Val(ONE, {self.factor(s, ('opaque',)): 1})
+                else:
+                    # |x| of a quotient: fresh y with y >= 0 and y*y == x*x (division-free, like sqrt)
+                    y = self.vvar('abs_%d' % j)
+                    self.assumptions.append(self.fac[next(iter(y.f))] >= 0)
+                    self.assumptions.append(self.eq_formula(self.mul(y, y), self.mul(a, a)))
+                    memo[j] = y
             elif op == D.POISON:
                 memo[j] = self.vvar('POISON_%d' % n[1])
             elif op == D.FLOOR:
